@@ -28,18 +28,19 @@ Fixpoint prefix_cs (pat line : list Z) : bool :=
 Fixpoint contains (needle hay : list Z) : bool :=
   prefix_cs needle hay || match hay with [] => false | _ :: r => contains needle r end.
 
-(* strtol(s, NULL, 10) for short digit strings *)
+(* strtol(s, NULL, 10): white space, optional sign, digits; the result is clamped to LONG_MIN..LONG_MAX *)
 Fixpoint digits_val (s : list Z) (acc : Z) : Z :=
   match s with
   | c :: r => if (48 <=? c) && (c <=? 57) then digits_val r (acc * 10 + (c - 48)) else acc
   | [] => acc
   end.
+Definition long_max : Z := 9223372036854775807.
 Fixpoint strtol10 (s : list Z) : Z :=
   match s with
   | c :: r => if is_space c then strtol10 r
-              else if c =? 45 then - digits_val r 0
-              else if c =? 43 then digits_val r 0
-              else digits_val s 0
+              else if c =? 45 then Z.max (- digits_val r 0) (- long_max - 1)
+              else if c =? 43 then Z.min (digits_val r 0) long_max
+              else Z.min (digits_val s 0) long_max
   | [] => 0
   end.
 
@@ -121,10 +122,13 @@ Definition hs_with_buf (st : hs_state) (b : list Z) : hs_state :=
 Definition is_some {A} (o : option A) : bool := match o with Some _ => true | None => false end.
 
 (* while (len < MAX-1) { read one byte ... } *)
-Fixpoint hs_loop (input : list Z) (st : hs_state) : hs_loop_res :=
+(* tmo = false: after the request the peer closes (EOF: "client gone", FALSE);
+   tmo = true : after the request the peer stays silent: rfbReadExactTimeout times out (100 ms) and the
+                C code breaks out of the loop and goes on with what it has parsed so far *)
+Fixpoint hs_loop (tmo : bool) (input : list Z) (st : hs_state) : hs_loop_res :=
   if zlen (hs_buf st) <? ws_max_handshake_len - 1 then
     match input with
-    | [] => HLGone st
+    | [] => if tmo then HLDone st else HLGone st
     | c :: rest =>
       let buf := hs_buf st ++ [c] in
       let len := zlen buf in
@@ -133,15 +137,15 @@ Fixpoint hs_loop (input : list Z) (st : hs_state) : hs_loop_res :=
         let line := skipn (Z.to_nat (hs_linestart st)) buf in
         if (llen =? 2) && prefix_cs [13; 10] line then
           if is_some (hs_key1 st) && is_some (hs_key2 st) && (len + 8 <? ws_max_handshake_len) then
-            if zlen rest <? 8 then HLGone (hs_with_buf st buf)
+            if zlen rest <? 8 then (if tmo then HLDone (hs_with_buf st buf) else HLGone (hs_with_buf st buf))
             else HLDone (hs_with_buf st (buf ++ firstn 8 rest))
           else HLDone (hs_with_buf st buf)
         else
           match hs_line st buf len with
           | None => HLFault
-          | Some st' => hs_loop rest st'
+          | Some st' => hs_loop tmo rest st'
           end
-      else hs_loop rest (hs_with_buf st buf)
+      else hs_loop tmo rest (hs_with_buf st buf)
     end
   else HLDone st.
 
@@ -177,11 +181,13 @@ Definition hs_finish (st : hs_state) : hs_result :=
       end
   end.
 
-(* webSocketsCheck on a request of at least 4 bytes (not TLS) *)
-Definition ws_handshake (req : list Z) : hs_result :=
-  if prefix_cs s_rfb req then HsPlain
+(* webSocketsCheck (not TLS).  EOF mode: requests of at least 4 bytes.  Time-out mode: fewer than 4 bytes
+   within 100 ms = "normal socket connection" *)
+Definition ws_handshake (tmo : bool) (req : list Z) : hs_result :=
+  if tmo && (zlen req <? 4) then HsPlain
+  else if prefix_cs s_rfb req then HsPlain
   else if negb (prefix_cs s_get req) then HsFail None
-  else match hs_loop req hs_init with
+  else match hs_loop tmo req hs_init with
   | HLFault => HsFault
   | HLGone st => HsFail (hs_wspath st)
   | HLDone st => hs_finish st
